@@ -11,6 +11,7 @@ import (
 	"testing"
 
 	"github.com/DistCompiler/pgo/distsys/tla"
+	"github.com/DistCompiler/pgo/distsys/trace"
 	"pgregory.net/rapid"
 
 	"verif/harness/sched"
@@ -87,7 +88,8 @@ func record(t *rapid.T, sim *sched.Sim, p *spectrace.Pair, steps int, pair strin
 
 // groups collects the traces per constant assignment: one TLC run judges all traces that share the constants.
 type groups struct {
-	pair map[string]*spectrace.Pair
+	chunk, steps map[string]int
+	pair         map[string]*spectrace.Pair
 	trs  map[string][]spectrace.Trace
 	keys []string
 }
@@ -97,7 +99,17 @@ func newGroups() *groups {
 }
 
 func (g *groups) add(p *spectrace.Pair, tr spectrace.Trace) {
-	k := strings.Join(p.Constants, ",")
+	// one TLC run judges at most ~2500 steps: the trace module is read into memory as a whole
+	base := strings.Join(p.Constants, ",")
+	if g.chunk == nil {
+		g.chunk, g.steps = map[string]int{}, map[string]int{}
+	}
+	if g.steps[base] > 0 && g.steps[base]+len(tr.Steps) > 2500 {
+		g.chunk[base]++
+		g.steps[base] = 0
+	}
+	g.steps[base] += len(tr.Steps)
+	k := fmt.Sprintf("%s #%d", base, g.chunk[base])
 	if _, ok := g.pair[k]; !ok {
 		g.keys = append(g.keys, k)
 	}
@@ -204,6 +216,7 @@ func TestC02LockSvc(t *testing.T) {
 		n := rapid.IntRange(1, 4).Draw(t, "clients")
 		d, c := draws(t)
 		ls := sysbind.NewLockSvc(n, d, c)
+		ls.Store.RefusePct = rapid.SampledFrom([]int{0, 0, 5, 20}).Draw(t, "precommit-refusals")
 		p := &spectrace.Pair{Module: "locksvc", SpecPath: "/repo/systems/locksvc/locksvc.tla", Constants: []string{fmt.Sprintf("NumClients = %d", n)},
 			Store: ls.Store, Globals: []string{"network", "hasLock"}, Procs: ls.Sim.Insts, CheckInit: true,
 			Locals:  []spectrace.Local{{TLA: "msg", Go: "AServer.msg", Owners: []*sched.Instance{ls.Server}}, {TLA: "q", Go: "AServer.q", Owners: []*sched.Instance{ls.Server}}},
@@ -224,6 +237,7 @@ func TestC02DQueue(t *testing.T) {
 		n, buf := rapid.IntRange(1, 3).Draw(t, "consumers"), rapid.SampledFrom([]int{1, 2, 4, 5}).Draw(t, "buffer")
 		d, c := draws(t)
 		s := sysbind.NewDQueue(n, buf, d, c)
+		s.Store.RefusePct = rapid.SampledFrom([]int{0, 0, 5, 20}).Draw(t, "precommit-refusals")
 		p := &spectrace.Pair{Module: "dqueue", SpecPath: "/repo/systems/dqueue/dqueue.tla",
 			Constants: []string{fmt.Sprintf("NUM_CONSUMERS = %d", n), fmt.Sprintf("BUFFER_SIZE = %d", buf), "PRODUCER = 0"},
 			Store:     s.Store, Globals: []string{"network", "processor", "stream"}, Procs: s.Sim.Insts, CheckInit: true,
@@ -269,6 +283,7 @@ func TestC02PBKVS(t *testing.T) {
 			}
 			return uint(rapid.IntRange(0, int(k)-1).Draw(t, id))
 		})
+		pb.Store.RefusePct = rapid.SampledFrom([]int{0, 0, 5, 20}).Draw(t, "precommit-refusals")
 		rl := func(tlaName, goName string) spectrace.Local {
 			return spectrace.Local{TLA: tlaName, Go: "AReplica." + goName, Owners: pb.Replicas}
 		}
@@ -293,6 +308,46 @@ func TestC02PBKVS(t *testing.T) {
 // raftPair describes the raftkvs pair: every global of the translation is rendered from the binding (shared
 // variables from the shadow kept from committed write events, the network bag from the harness links, the
 // channels from the harness queues); pc and the process locals from the contexts.
+// kindConflict: TLC cannot compare (or test for equality) an integer with a string, so it cannot build a function
+// (here: the network bag) whose domain holds two records that differ in such a pair of fields — e.g. two Get
+// responses, one with value Nil (0) and one with a string. Such a state is the spec's own, but TLC cannot hold it.
+func kindConflict(a, b tlx.Val) bool {
+	if a.K != b.K {
+		return true
+	}
+	switch a.K {
+	case tlx.KTup, tlx.KSet:
+		for i := range a.E {
+			if i < len(b.E) && kindConflict(a.E[i], b.E[i]) {
+				return true
+			}
+		}
+	case tlx.KFn:
+		// records over different field sets are told apart by their domains; the values are only compared
+		// when the domains are the same
+		if len(a.Ks) != len(b.Ks) {
+			return false
+		}
+		for i := range a.Ks {
+			if kindConflict(a.Ks[i], b.Ks[i]) {
+				return true
+			}
+			if a.Ks[i].TLA() != b.Ks[i].TLA() {
+				return false
+			}
+		}
+		for i := range a.Vs {
+			if kindConflict(a.Vs[i], b.Vs[i]) {
+				return true
+			}
+		}
+	}
+	return false
+}
+
+// raftUnrepresentable is set by the state rendering when the state just rendered cannot be held by TLC.
+var raftUnrepresentable bool
+
 func raftPair(r *sysbind.Raft) *spectrace.Pair {
 	n, nc := r.O.NumServers, r.O.NumClients
 	var procs, srv0, srv1, srv2, srv3, srv4 []*sched.Instance
@@ -343,10 +398,19 @@ func raftPair(r *sysbind.Raft) *spectrace.Pair {
 		s["network"] = fn(nodes, func(k int) string {
 			count := map[string]int{}
 			var order []string
+			var distinct []tlx.Val
 			for _, m := range r.Queued(k) {
 				t := spectrace.RenderValue(m)
 				if count[t] == 0 {
 					order = append(order, t)
+					if x, err := tlx.FromTLA(m.StripVClock()); err == nil {
+						for _, y := range distinct {
+							if kindConflict(x, y) {
+								raftUnrepresentable = true
+							}
+						}
+						distinct = append(distinct, x)
+					}
 				}
 				count[t]++
 			}
@@ -411,14 +475,28 @@ func TestC02RaftKVS(t *testing.T) {
 		var p *spectrace.Pair
 		var tr spectrace.Trace
 		var before spectrace.State
-		run, msg := sysbind.DriveRaft(t, sysbind.RaftDriveOpts{MinClients: 1, MaxClients: 2, MaxSteps: 800, SpecChannels: true,
+		aborts := 0
+		truncated := false
+		run, msg := sysbind.DriveRaft(t, sysbind.RaftDriveOpts{MinClients: 2, MaxClients: 2, MaxSteps: raftMaxSteps, SpecChannels: true, PreCommitRefusals: true,
+			ServersFrom: []int{2, 3, 3, 3, 5}, CapsFrom: []int{3, 100, 100, 100},
 			OnStart: func(run *sysbind.RaftRun) {
 				p = raftPair(run.R)
+				raftUnrepresentable = false
 				tr.Init = p.Snapshot()
 				before = tr.Init
 			},
+			Done: func(*sysbind.RaftRun) bool { return truncated },
 			OnCommit: func(run *sysbind.RaftRun, in *sched.Instance, st sched.Step) string {
+				if truncated {
+					return ""
+				}
 				post := p.Snapshot()
+				if raftUnrepresentable {
+					// the trace ends before this state (TLC could not even read it)
+					truncated = true
+					vstat.Class("raftkvs.trace-ended-early.state-not-representable-in-TLC")
+					return ""
+				}
 				lbl := spectrace.Label(st.PC)
 				tr.Steps = append(tr.Steps, spectrace.Step{Lbl: lbl, Who: spectrace.RenderValue(in.Self), Post: post})
 				vstat.Class("raftkvs.label." + lbl)
@@ -432,6 +510,18 @@ func TestC02RaftKVS(t *testing.T) {
 				return ""
 			},
 			OnAbort: func(run *sysbind.RaftRun, in *sched.Instance, st sched.Step) string {
+				// rendering the whole state is the expensive part: aborted attempts that wrote something are always
+				// compared, the others (most attempts: an empty mailbox) every eighth time
+				wrote := false
+				for _, el := range st.Event.Elements {
+					if _, isW := el.(trace.WriteElement); isW {
+						wrote = true
+					}
+				}
+				aborts++
+				if truncated || (!wrote && aborts%8 != 0) {
+					return ""
+				}
 				after := p.Snapshot()
 				for k, v := range before {
 					if after[k] != v {
@@ -452,3 +542,14 @@ func TestC02RaftKVS(t *testing.T) {
 }
 
 func tailStr(s string, n int) string { return tail(s, n) }
+
+var raftMaxSteps = func() int {
+	if v := os.Getenv("VERIF_C02_RAFT_STEPS"); v != "" {
+		var n int
+		fmt.Sscan(v, &n)
+		if n > 0 {
+			return n
+		}
+	}
+	return 1500
+}()
